@@ -81,6 +81,21 @@ Theorem C10_duration_max_refuted :
 Proof. exact duration_max_refuted. Qed.
 Print Assumptions C10_duration_max_refuted.
 
+(* STILL TRUE OF THE CODE (known finding time-budget-restarts-after-failed-run, not repaired:
+   `execution_time` doubles as the "already evaluated" marker, so recording the time of a failed
+   run needs a new state field): the cumulative-time clause of the property is false of the
+   faithful machine.  The program needs 50 clock units; with max_time = 25 the first call ends in
+   Timeout and the retry succeeds reporting 20 units.  The same history is case 0 of every
+   correspondence run (h_limits witness_time_restart) and the direct oracle on cumulative
+   scripted-clock time reports it. *)
+Theorem C10_time_restart_refuted :
+  history lx_orc false false (mklimits 1000 1000 1000 false) lx_token lx_auth [LRun] lx_clock
+    = [(BRunOk, 3%N, 7%N, Some 50%N)] /\
+  history lx_orc false false (mklimits 1000 1000 25 false) lx_token lx_auth [LRun; LRun] lx_clock
+    = [(BErr (LLimit Timeout), 3%N, 7%N, None); (BRunOk, 3%N, 7%N, Some 20%N)].
+Proof. exact time_restart_refuted. Qed.
+Print Assumptions C10_time_restart_refuted.
+
 (* non-vacuity: the initial state of any loaded authorizer satisfies the invariant, and a
    budget that is hit in the middle of a history *)
 Example C10_ex_initial : forall l t a,
